@@ -320,6 +320,16 @@ def rule_norms(rep, pdb):
             if inf_test:
                 special.append(val_ == ("call", "%s::norm_max" % M64, P(0)))
         rep.add("norm-orientation/norm_p/inf", rule, bool(special) and all(special), fn["body"], "p = inf return paths: %s" % special, where=loc(fn["body"]))
+        # every other return path is the power-sum formula: a fast path that hands a particular p to another norm
+        # (norm_1 is the max column sum, not the entrywise sum of magnitudes) changes the definition
+        others = []
+        for fs_, val_, node_ in return_paths(ctx):
+            inf_test = any(f_[0] == "bool" and f_[2] and f_[1][0] == "call" and str(f_[1][1]).endswith("::is_infinite") and f_[1][2] == P(1) for f_ in fs_) or \
+                any(f_[0] == "cmp" and f_[1] == "==" and P(1) in (f_[2], f_[3]) and "INFINITY" in repr(f_) for f_ in fs_)
+            if not inf_test and not (val_[0] == "call" and str(val_[1]).endswith("powf")):
+                others.append((loc(node_), val_))
+        rep.add("norm-orientation/norm_p/only-formula", "apart from p = inf every return path of norm_p is the power-sum formula powf(sum, 1/p)", not others, fn["body"],
+                "other return paths: %s" % [(w_, show(v_, ctx)[:60]) for w_, v_ in others], where=others[0][0] if others else loc(fn["body"]))
 
 
 def _anc(n):
